@@ -5,6 +5,7 @@ import (
 	"fmt"
 	"math/rand"
 	"net/netip"
+	"time"
 
 	"github.com/gopacket/gopacket"
 
@@ -208,6 +209,7 @@ func (c *Control) Proj(raw []byte, full bool) map[string]any {
 		return m
 	}
 	hs := []any{}
+	now := time.Now()
 	seg := 0
 	acc := 0
 	for k, h := range hops {
@@ -225,7 +227,9 @@ func (c *Control) Proj(raw []byte, full bool) map[string]any {
 		e := map[string]any{"in": int(h.ConsIngress), "eg": int(h.ConsEgress),
 			"exp": int(h.ExpTime), "ia": h.IngressRouterAlert, "ea": h.EgressRouterAlert,
 			"sig": int(binary.BigEndian.Uint16(h.Mac[:2])), "id": "?", "as": "?", "bc": -1,
-			"ok": false}
+			"ok": false,
+			// abstraction of time: hop expired (scenarios keep >= 5 min distance from the boundary)
+			"x": time.Unix(int64(ts), 0).Add(path.ExpTimeToDuration(h.ExpTime)).Before(now)}
 		if id, ok := c.Lookup(h.ConsIngress, h.ConsEgress, h.ExpTime, h.Mac, ts); ok {
 			e["id"], e["as"], e["bc"] = id.String(), c.T.ASes[id.AS].Name, int(id.BetaC)
 			// abstraction function macValid: independent CMAC with the issuer's key over the
